@@ -105,6 +105,20 @@ def configs(tier):
                         if tmax == 'sym' and not sir:
                             c['tmax_within'] = 2.5     # a symbolic horizon of at most 3 steps (SIS never dies out on its own)
                         out.append(c)
+    # graphs with a self-loop: a node is not its own contact (the simulators skip such edges explicitly)
+    for entry in ('Gillespie_SIR', 'fast_SIR', 'fast_nonMarkov_SIR', 'Gillespie_SIS', 'fast_SIS', 'fast_nonMarkov_SIS', 'discrete_SIR', 'basic_discrete_SIS'):
+        for I0 in ([0], [1]):
+            for full in (False, True):
+                c = dict(entry=entry, graph='P3loop', I0=I0, R0=[], full=full, weights='none', tmax='sym', tags=['P3loop', 'full' if full else 'plain'])
+                if entry == 'Gillespie_SIS':
+                    c.update(max_expo=e + 1, truncate=False)
+                elif entry == 'fast_SIS':
+                    c.update(max_expo=2 * e - 1)
+                elif entry == 'fast_nonMarkov_SIS':
+                    c.update(max_infections=e, delays_per_pair=1, ties=True)
+                elif 'discrete' in entry:
+                    c['tmax'] = 'steps:2'
+                out.append(c)
     # discrete_SIR with a user recovery test that may keep a node infectious for several steps (engine-chosen answers)
     for g in ['K2+K1', 'P3'] + (['K3', 'P4'] if tier == 'thorough' else []):
         for I0, R0 in graphs.automorphism_reduced_ics(g):
